@@ -16,6 +16,7 @@ Parts
       renderer and parsed back;
   (e) getEnvInt/getEnvBool on thousands of value strings (overlay test).
 """
+import http.client
 import http.server
 import itertools
 import random
@@ -255,6 +256,8 @@ class Backends:
     def __init__(self, n):
         class H(http.server.BaseHTTPRequestHandler):
             def do_GET(self):
+                if self.path.startswith("/slow?ms="):      # a request that stays in flight for that long
+                    time.sleep(int(self.path.split("=", 1)[1]) / 1000.0)
                 self.send_response(200)
                 self.send_header("Content-Length", "2")
                 self.end_headers()
@@ -625,6 +628,7 @@ class Session:
             ports = free_ports(2)
             px = Proxy(self.binary, os.path.join(self.root, "proxy%d" % attempt),
                        ["--http-port", str(ports[0]), "--https-port", str(ports[1])])
+            px.http_port = ports[0]
             if px.start():
                 self.proxy = px
                 self.relay = Relay(os.path.join(self.client_rt, "kamal-proxy.sock"),
@@ -727,6 +731,27 @@ def scenario_commands(s):
         r(argv, "dial", dial=False)
     r(["remove", "web"], "ok")
     r(["list"], "ok")
+    # a redeploy whose new target is healthy at once while the replaced target still has a request in flight for longer than
+    # the deploy timeout (and well within the drain timeout): the proxy answers - success - only after the drain; the command
+    # must wait for that answer and exit 0
+    r(["deploy", "slow", "--target", T0, "--host", "slow.example"], "ok")
+    done = []
+
+    def inflight():
+        try:
+            c = http.client.HTTPConnection("127.0.0.1", s.proxy.http_port, timeout=30)
+            c.request("GET", "/slow?ms=4200", headers={"Host": "slow.example"})
+            done.append(c.getresponse().status)
+        except Exception as ex:      # noqa
+            done.append(repr(ex))
+    th = threading.Thread(target=inflight, daemon=True)
+    th.start()
+    time.sleep(0.4)
+    st = r(["deploy", "slow", "--target", T1, "--host", "slow.example", "--deploy-timeout", "1s", "--drain-timeout", "20s"], "ok",
+           note="redeploy that has to wait ~4 s for the drain of the replaced target (deploy timeout 1 s)")
+    th.join(10)
+    st["inflight_request"] = done[:1]
+    r(["remove", "slow"], "ok")
 
 
 LIST_SERVICES = [
@@ -922,9 +947,9 @@ def terms_of(c, o):
             v = msg if msg is not None else (b"" if o["exit"] != 0 else None)   # refused before the socket was touched
         else:
             e = o.get("rpc_error")
-            if e is None:
-                return None
-            r = e.encode("utf-8") if e != "" else None
+            # e is None: the command left before a complete answer of the proxy had come back through the relay - the proxy has
+            # reported no error to it (exit rule: such a command must not exit non-zero; "exactly when the proxy reports an error")
+            r = e.encode("utf-8") if e else None
         out = ["CaseExit %s %s %s %d%%N %s" % (opt_lit(v, sb), opt_lit(d, sb), opt_lit(r, sb),
                                               o["exit"] if o["exit"] >= 0 else 255, sb(err))]
         if "deploy" in o:
@@ -1092,6 +1117,8 @@ def run(tier, seed):
                 actual = ("dial" if not o["socket"] and o["exit"] != 0 and b"dial unix" in bytes.fromhex(o["stderr"]) else
                           "validation" if o.get("connections", 0) == 0 and o["exit"] != 0 else
                           "rpc" if o.get("rpc_error") else "ok" if o["exit"] == 0 else "?")
+                if actual == "?" and o.get("rpc_error") is None:
+                    continue        # exit non-zero without an error from the proxy: the exit-rule monitor's business, not a scenario mismatch
                 if actual != c["expect"]:
                     mismatches.append({"argv": c["argv"], "expected": c["expect"], "got": actual,
                                        "stderr": bytes.fromhex(o["stderr"]).decode("utf-8", "replace")[:200]})
